@@ -227,6 +227,9 @@ def _r143(ctx: Ctx) -> None:
                         per = {}
                         files, logs = set(), set()
                         for (a, kw) in tasks:
+                            if 'TOP' in repr(a) or 'TOP' in repr(kw):
+                                raise AnalysisError('R14.3', site, f'run_parallel: task arguments not tracked ({a!r}) for '
+                                                                   f'{n_inputs} input(s), {N}x{C} tasks, {trials} trials')
                             if not (isinstance(a, tuple) and len(a) == 3 and isinstance(a[2], int)):
                                 why = f'task arguments {a!r}'
                                 break
@@ -252,6 +255,24 @@ def _r143(ctx: Ctx) -> None:
     ctx.extra['bounded_configurations'] = total
 
 
+def _r142_order(ctx: Ctx) -> None:
+    """Every node runs run_parallel in its own interpreter: the i-th input must be the same file on all of them.
+    The directory listing is trusted to be the same; a set (or anything else iterated in hash order) of path strings
+    is not - PYTHONHASHSEED differs per process."""
+    from .c02 import hash_ordered_uses
+    m = ctx.model
+    mi, fn = m.func('panqec.cli', 'run_parallel')
+    uses = [(n, src, kind) for n, src, kind in hash_ordered_uses(fn)
+            if isinstance(src, (ast.Set, ast.SetComp)) or (isinstance(src, ast.Call) and isinstance(src.func, ast.Name)
+                                                          and src.func.id in ('set', 'frozenset'))]
+    bad = uses[0] if uses else None
+    ctx.ob('R14.2', site_of(mi, bad[0]) if bad else site_of(mi, fn), 'run_parallel: the order of the input files does not '
+                                                                    'depend on the hash seed of the process', bad is None,
+           f'{norm_stmt(bad[0], 100)} iterates {norm_stmt(bad[1], 80)}: a set of path strings is ordered by hashes that differ '
+           f'from node to node, so task i works on different files on different nodes' if bad else '',
+           key='run_parallel|input-order')
+
+
 def run(ctx: Ctx) -> None:
     ctx.rule('R14.1', 'a remainder added to a per-share quotient is the remainder of the same division, for one share', floor=4)
     ctx.rule('R14.2', 'task index injective in (job, core); result/progress file names depend on it', floor=4)
@@ -263,3 +284,5 @@ def run(ctx: Ctx) -> None:
         _r141(ctx)
     with ctx.part():
         _r142(ctx)
+    with ctx.part():
+        _r142_order(ctx)
